@@ -717,6 +717,10 @@ func (r *cfgRun) observe(skip map[lkey]bool, expect map[lkey][]cfgKeyC) ([]bool,
 							wait = 4 * time.Second
 						}
 					}
+					// every other datagram is as short as a valid one gets (a 2-byte payload)
+					if n := atomic.LoadInt64(&r.probeN); n%2 == 0 {
+						payload = []byte{byte('a' + n%26), byte('a' + (n/26)%26)}
+					}
 					x.udp = probeUDP(p.dialAddr(l), k, r.tg.udpAddr, payload, wait)
 					x.echo = x.udp.Replies > 0
 					if x.udp.Replies > 1 {
